@@ -41,7 +41,8 @@ def run_history(cfg, ops, behs):
     """Run ops on a real LoopingCall driven by a real task.Clock; return the trace dict.
     cfg: iv (ticks), nowFlag, wc, t0 (ticks), k (unit = 2**-k seconds per tick).
     ops: ("adv", d) | ("fire", ok) | ("stop",) | ("reset",); start is implicit and first.
-    behs: behaviour of the function at its 1st, 2nd, ... invocation ("ret" | "raise" | "defer"); "ret" when exhausted."""
+    behs: behaviour of the function at its 1st, 2nd, ... invocation ("ret" | "raise" | "defer", optionally prefixed
+          with "stop": the function first calls stop() on its own loop); "ret" when exhausted."""
     from twisted.internet import task, defer
 
     unit = 2.0 ** -cfg["k"]
@@ -63,6 +64,9 @@ def run_history(cfg, ops, behs):
         if cfg["wc"]:
             c = args[0] if len(args) == 1 and isinstance(args[0], int) and 0 <= args[0] < 2 ** 30 else -1
         calls.append({"t": int(t), "c": c, "b": b})
+        if b.startswith("stop"):
+            lc.stop()           # the function stops its own loop, then returns / raises / returns a Deferred
+            b = b[4:]
         if b == "raise":
             raise Boom()
         if b == "defer":
@@ -139,7 +143,8 @@ def run_history(cfg, ops, behs):
 
 
 ALPHA = [("adv", 1), ("adv", 2), ("adv", 5), ("fire", True), ("fire", False), ("stop",), ("reset",)]
-BEH_PATTERNS = [("ret",) * 8, ("defer",) * 8, ("ret", "defer", "raise"), ("defer", "ret", "ret", "raise")]
+BEH_PATTERNS = [("ret",) * 8, ("defer",) * 8, ("ret", "defer", "raise"), ("defer", "ret", "ret", "raise"),
+                ("ret", "stopdefer"), ("defer", "stopret"), ("ret", "ret", "stopraise")]
 
 
 def exhaustive(depth, ivs):
@@ -179,10 +184,12 @@ def random_history(rng):
             ops.append(("adv", d))
     p_def = rng.choice([0.0, 0.3, 0.6])
     p_raise = rng.choice([0.0, 0.03, 0.1])
+    p_stopin = rng.choice([0.0, 0.0, 0.08])       # the function stops the loop from inside
     behs = []
     for _ in range(n + 1):
         r = rng.random()
-        behs.append("raise" if r < p_raise else "defer" if r < p_raise + p_def else "ret")
+        b = "raise" if r < p_raise else "defer" if r < p_raise + p_def else "ret"
+        behs.append("stop" + b if rng.random() < p_stopin else b)
     return cfg, ops, behs
 
 
@@ -246,7 +253,7 @@ def fingerprint(trace, rej, count_only=False):
         kinds.append("resetsSincePrevCall=%s" % (1 if nres == 1 else "2+"))
     if any(x["sd"] for x in prior):
         kinds.append("afterStartDFired")
-    outstanding = sum(1 for x in prior for c in x["calls"] if c["b"] == "defer") - sum(1 for x in prior if x["e"] == "fire")
+    outstanding = sum(1 for x in prior for c in x["calls"] if c["b"].endswith("defer")) - sum(1 for x in prior if x["e"] == "fire")
     if outstanding > 0:
         kinds.append("innerOutstanding")
     what = "call" if e["calls"] else ("sd" if e["sd"] else "nocall")
@@ -268,7 +275,6 @@ def _without_counts(t):
 
 
 def _report(ctx, traces, rej, label):
-    rej = rej[:20]
     wc = [x for x in rej if traces[x.idx]["cfg"]["wc"]]
     count_only = set()
     if wc:
@@ -296,7 +302,7 @@ def run(ctx):
                                       "ResetScheduled", "ResetInCall", "ResetNotRunning"])
     traces = []
     seen = set()
-    depth = ctx.pick(3, 5)
+    depth = ctx.pick(3, 4)
     for cfg, ops, behs in exhaustive(depth, ctx.pick((1, 2, 3), (1, 2, 3))):
         t = run_history(cfg, ops, behs)
         key = repr((sorted(cfg.items()), t["ev"]))
@@ -310,7 +316,7 @@ def run(ctx):
     for _ in range(ctx.pick(3000, 100000)):
         traces.append(run_history(*random_history(ctx.rng)))
     # spec -> code
-    behs = ctx.simulate("LoopingSim", "LoopingSim.cfg", num=ctx.pick(150, 4000), depth=15)
+    behs = ctx.simulate("LoopingSim", "LoopingSim.cfg", num=ctx.pick(60, 4000), depth=15)
     drift = 0
     for b in behs:
         t = run_history(*from_behaviour(b))
